@@ -11,6 +11,9 @@ import (
 // Profile steers the general history generator (weights of op kinds and
 // outcome distributions). Every random choice goes through rapid.
 type Profile struct {
+	Graph    bool // drawn resource graphs (graphConfig) instead of the fixed default resources
+	Dense    bool // graphConfig draws mostly references: many paths to the same child
+	Acyclic  bool // graphConfig draws forward references only (DAGs: diamonds and shared children, no cycles)
 	Name     string
 	MinOps   int
 	MaxOps   int
@@ -233,6 +236,7 @@ func (g *Gen) Step() bool {
 			choice{g.wt("trigburst"), func() { g.opTrigBurst(conns) }},
 			choice{g.wt("refburst"), func() { g.opRefBurst(conns) }},
 			choice{g.wt("throtburst"), func() { g.opThrottleBurst(conns) }},
+			choice{g.wt("gcburst"), func() { g.opGCBurst(conns) }},
 			choice{g.wt("hostilereq"), func() { g.opHostileReq(conns) }},
 		)
 	}
@@ -803,6 +807,53 @@ func (g *Gen) opThrottleBurst(conns []*Client) {
 		default:
 			g.w.Exec(Op{K: "creq", C: c.Idx, ID: g.nextID(c), M: "subscribe." + rid})
 		}
+	}
+}
+
+// opGCBurst releases a tree the client holds while another tree, which may
+// share children with it, is still loading on the same connection (the shape
+// of issue #241): subscribe P, answer P itself but not its children, release R
+// completely; the epilogue answers the rest.
+func (g *Gen) opGCBurst(conns []*Client) {
+	c := g.conn(conns)
+	var held []string
+	for rid, n := range c.Ref.Direct {
+		if n > 0 {
+			held = append(held, rid)
+		}
+	}
+	if len(held) == 0 {
+		return
+	}
+	sort.Strings(held)
+	r := g.sample("gcroot", held)
+	p := g.sample("gcother", g.rids)
+	if p == r {
+		return
+	}
+	g.w.Exec(Op{K: "creq", C: c.Idx, ID: g.nextID(c), M: "subscribe." + p})
+	pname, pq := g.w.expandRID(c, p)
+	for _, subj := range []string{"access." + pname, "get." + pname} {
+		for _, pv := range g.w.PendingSorted() {
+			if pv.P.Subject == subj && pv.P.Query == pq && (pv.Actor == c.Idx || pv.Actor < 0) {
+				op := Op{K: "ans", S: pv.P.Subject, Q: pv.P.Query, A: actorEnc(pv.Actor), N: pv.Ord, O: "ok"}
+				if strings.HasPrefix(subj, "access.") {
+					op.P = `{"get":true,"call":"*"}`
+				}
+				g.w.Exec(op)
+				break
+			}
+		}
+	}
+	if rapid.Bool().Draw(g.t, "gcone") {
+		if pend := g.w.PendingSorted(); len(pend) > 0 {
+			g.opAnswer(pend)
+		}
+	}
+	if n := c.Ref.Direct[r]; n > 1 {
+		g.w.Exec(Op{K: "creq", C: c.Idx, ID: g.nextID(c), M: "unsubscribe." + r, P: fmt.Sprintf(`{"count":%d}`, n)})
+	} else {
+		g.w.Exec(Op{K: "creq", C: c.Idx, ID: g.nextID(c), M: "unsubscribe." + r})
 	}
 }
 
